@@ -33,11 +33,16 @@ type funcFacts struct {
 	in map[*ssa.BasicBlock]factSet
 }
 
-func normCond(cond ssa.Value, truth bool) []Fact {
+func normCond(cond ssa.Value, truth bool) []Fact { return normCondD(cond, truth, 0) }
+
+func normCondD(cond ssa.Value, truth bool, depth int) []Fact {
+	if depth > 6 {
+		return []Fact{{Atom{"true", cond, nil}, truth}}
+	}
 	switch c := cond.(type) {
 	case *ssa.UnOp:
 		if c.Op == token.NOT {
-			return normCond(c.X, !truth)
+			return normCondD(c.X, !truth, depth+1)
 		}
 	case *ssa.BinOp:
 		switch c.Op {
@@ -58,11 +63,11 @@ func normCond(cond ssa.Value, truth bool) []Fact {
 		// short-circuit && / || materialised as a phi of constants and one condition
 		// (x && y: phi [false, y]); on the true edge of such a phi both hold.
 		if truth {
-			if fs := andPhi(c); fs != nil {
+			if fs := andPhi(c, depth); fs != nil {
 				return fs
 			}
 		} else {
-			if fs := orPhi(c); fs != nil {
+			if fs := orPhi(c, depth); fs != nil {
 				return fs
 			}
 		}
@@ -72,7 +77,7 @@ func normCond(cond ssa.Value, truth bool) []Fact {
 
 // andPhi: phi whose operands are `false` constants and exactly one non-constant y, where the
 // false constants come from blocks ending in `if x` (false edge). Then phi==true => y (and x).
-func andPhi(p *ssa.Phi) []Fact {
+func andPhi(p *ssa.Phi, depth int) []Fact {
 	var out []Fact
 	nonconst := 0
 	for i, e := range p.Edges {
@@ -82,12 +87,12 @@ func andPhi(p *ssa.Phi) []Fact {
 			}
 			pred := p.Block().Preds[i]
 			if iff, ok := pred.Instrs[len(pred.Instrs)-1].(*ssa.If); ok && pred.Succs[1] == p.Block() {
-				out = append(out, normCond(iff.Cond, true)...)
+				out = append(out, normCondD(iff.Cond, true, depth+1)...)
 			}
 			continue
 		}
 		nonconst++
-		out = append(out, normCond(e, true)...)
+		out = append(out, normCondD(e, true, depth+1)...)
 	}
 	if nonconst != 1 {
 		return nil
@@ -95,7 +100,7 @@ func andPhi(p *ssa.Phi) []Fact {
 	return out
 }
 
-func orPhi(p *ssa.Phi) []Fact {
+func orPhi(p *ssa.Phi, depth int) []Fact {
 	var out []Fact
 	nonconst := 0
 	for i, e := range p.Edges {
@@ -105,12 +110,12 @@ func orPhi(p *ssa.Phi) []Fact {
 			}
 			pred := p.Block().Preds[i]
 			if iff, ok := pred.Instrs[len(pred.Instrs)-1].(*ssa.If); ok && pred.Succs[0] == p.Block() {
-				out = append(out, normCond(iff.Cond, false)...)
+				out = append(out, normCondD(iff.Cond, false, depth+1)...)
 			}
 			continue
 		}
 		nonconst++
-		out = append(out, normCond(e, false)...)
+		out = append(out, normCondD(e, false, depth+1)...)
 	}
 	if nonconst != 1 {
 		return nil
